@@ -188,11 +188,16 @@ def family(tier, rng):
                                    {"a": SRC, "b": TR, "c": MULTI(K("lsft"), TR)}], qmax=2)
     # a global override replaces the held key's output (the table lists the override's output as well)
     add("overrides", "abc", [{"a": X, "b": K("lsft"), "c": SX}], qmax=2 if tier == "quick" else 3, overrides=[(["lsft", "x"], ["y"])])
+    # two held layers that both map the key: an output put down on the older held layer is still repeated
+    # after a newer layer that maps the key differently has been activated
+    add("three_layers", "abc", [{"a": X, "b": LWH(1), "c": LWH(2)},
+                                {"a": Y, "b": TR, "c": TR},
+                                {"a": CH(["lsft"], "z"), "b": TR, "c": TR}], qmax=2 if tier == "quick" else 3)
     if tier == "thorough":
         add("unshift_multi", "abc", [{"a": MULTI(K("lsft"), UNSHIFT("x")), "b": K("lsft"), "c": UNMOD("y", "z")}])
-        add("three_layers", "abc", [{"a": X, "b": LWH(1), "c": LWH(2)},
-                                    {"a": Y, "b": TR, "c": TR},
-                                    {"a": TR, "b": SX, "c": TR}])
+        add("three_layers_trans", "abc", [{"a": X, "b": LWH(1), "c": LWH(2)},
+                                          {"a": Y, "b": TR, "c": TR},
+                                          {"a": TR, "b": SX, "c": TR}])
         add("lsw_layers", "abc", [{"a": X, "b": LSW(1), "c": LWH(2)},
                                   {"a": Y, "b": LSW(0), "c": TR},
                                   {"a": CH(["lctl"], "z"), "b": TR, "c": TR}])
